@@ -644,7 +644,16 @@ func (b *Batch) RunConc(cases []*mon.Case, goroutines, iters int, canary bool, g
 	os.Remove(cf)
 	os.Remove(of)
 	if runErr != nil && len(sum) == 0 {
-		return nil, logs.String(), fmt.Errorf("concurrent child failed: %v: %s", runErr, tailBytes(out, 2000))
+		head := out
+		if i := bytes.Index(out, []byte("fatal error:")); i >= 0 {
+			head = out[i:]
+		} else if i := bytes.Index(out, []byte("panic:")); i >= 0 {
+			head = out[i:]
+		}
+		if len(head) > 1500 {
+			head = head[:1500]
+		}
+		return nil, logs.String(), fmt.Errorf("concurrent child failed: %v: %s ... %s", runErr, head, tailBytes(out, 600))
 	}
 	return sum, logs.String(), nil
 }
